@@ -92,6 +92,11 @@ fn one_gds(id: &str, t: &mut Tape, dir: &Path, probes: &mut std::collections::BT
                 }
             });
             let r = gds21::GdsLibrary::open(&fifo);
+            // if the reader never opened the pipe, the writer is still blocked in open(2): release it before joining
+            {
+                use std::os::unix::fs::OpenOptionsExt;
+                let _ = std::fs::OpenOptions::new().read(true).custom_flags(libc::O_NONBLOCK).open(&fifo);
+            }
             let _ = w.join();
             *probes.entry("opened_through_a_fifo".into()).or_insert(0) += 1;
             match r {
